@@ -439,4 +439,209 @@ theorem done_within_budget_size (buf : List Nat) (size : Nat) (ops : List Op) (h
   unfold tell at hfit
   omega
 
+/-! ### Exact bit accounting of every error-free run (what the encoder skeletons assume) -/
+
+theorem encNormalize_acct (c : Enc) (pre : EncPre c) (hn : (encNormalize c).nbitsTotal < 4294967296)
+    (herr : (encNormalize c).error = 0) :
+    8 * encM (encNormalize c) + c.nbitsTotal = 8 * encM c + (encNormalize c).nbitsTotal := by
+  induction hm : 8388609 - c.rng using Nat.strongRecOn generalizing c with
+  | _ m ih =>
+    by_cases h : 0 < c.rng ∧ c.rng ≤ 8388608
+    · rw [encNormalize_step c h] at hn herr ⊢
+      have hnb := encNormalize_nbits_ge (normStep c)
+      have hnb2 : (normStep c).nbitsTotal = c.nbitsTotal + 8 := rfl
+      have herr1 : (normStep c).error = 0 := by
+        apply Classical.byContradiction; intro hne
+        exact encNormalize_error_mono _ hne herr
+      obtain ⟨_, s1, _, s3, s4, _⟩ := normStep_spec c pre h.2 (by omega) herr1
+      have := ih (8388609 - (normStep c).rng) (by rw [s3]; omega) (normStep c) s1 hn herr rfl
+      rw [s4] at this; omega
+    · rw [encNormalize_done c h]
+
+/-- One successful operation keeps the accounting exact. -/
+theorem acct_op (c : Enc) (op : Op) (ri : RunInv c) (ac : Acct c) (hl : op.LegalAt c)
+    (hn : (encOp c op).nbitsTotal < 4294967296) (herr : (encOp c op).error = 0) : Acct (encOp c op) := by
+  have prim : ∀ (op' : Op), op'.Legal → ∀ {r a b first}, op'.sub c.rng = some (r, a, b, first) →
+      (encOp c op').nbitsTotal < 4294967296 → (encOp c op').error = 0 → Acct (encOp c op') := by
+    intro op' hl' r a b first hsub hn' herr'
+    obtain ⟨ok, heq⟩ := encOp_sub c op' ri.inv hl' hsub
+    rw [heq] at hn' herr' ⊢
+    obtain ⟨pre, _, _⟩ := encSub_spec c r a b first ri.inv ok
+    have e2 := encNormalize_acct _ pre hn' herr'
+    obtain ⟨_, _, _, _, _, _, n6, _, _, n9⟩ := encNormalize_spec _ pre hn' herr'
+    rw [encSub_endOffs] at n6
+    rw [encSub_nendBits] at n9
+    rw [encSub_encM, encSub_nbitsTotal] at e2
+    unfold Acct rawN at ac ⊢
+    rw [n6, n9]; omega
+  cases op with
+  | encode fl fh ft => exact prim _ hl rfl hn herr
+  | encodeBin fl fh nb => exact prim _ hl rfl hn herr
+  | bitLogp v logp =>
+    obtain ⟨r, a, b, first, hsub⟩ := sub_isSome_bitLogp c.rng v logp
+    exact prim _ hl hsub hn herr
+  | icdf s tbl ftb => exact prim _ hl rfl hn herr
+  | icdf16 s tbl ftb => exact prim _ hl rfl hn herr
+  | bits v n =>
+    obtain ⟨g1, _, _, g4, _, g6⟩ := encBits_range c v n ri hl.2.1 hl.2.2 herr
+    simp only [encOp]
+    unfold Acct at ac ⊢
+    rw [g1, g4, g6]; omega
+  | patchInitial v n => exact absurd hl (by simp [Op.LegalAt])
+  | shrink size => exact ac
+  | uint v ft =>
+    obtain ⟨l1, l2, l3⟩ := hl
+    simp only [encOp, encUint] at hn herr ⊢
+    by_cases hb : ilog (ft - 1) > 8
+    · rw [if_pos hb] at hn herr ⊢
+      have hleg := uint_hi_legal l1 l2 l3 hb
+      generalize hftb : ilog (ft - 1) - 8 = ftb at *
+      have hftb24 : ftb ≤ 24 := by
+        have : ilog (ft - 1) ≤ 32 := by rw [ilog_lt_iff]; omega
+        omega
+      have hlo : v % 2 ^ ftb < 2 ^ ftb := Nat.mod_lt _ (Nat.pow_pos (by decide))
+      have hmono := (encBits_rn (encode c (v / 2 ^ ftb) (v / 2 ^ ftb + 1) ((ft - 1) / 2 ^ ftb + 1))
+        (v % 2 ^ ftb) ftb).2
+      have herr1 : (encode c (v / 2 ^ ftb) (v / 2 ^ ftb + 1) ((ft - 1) / 2 ^ ftb + 1)).error = 0 := by
+        apply Classical.byContradiction; intro hne
+        exact encBits_error_mono _ _ _ hne herr
+      have a1 := prim (.encode (v / 2 ^ ftb) (v / 2 ^ ftb + 1) ((ft - 1) / 2 ^ ftb + 1)) hleg rfl
+        (by simp only [encOp]; omega) herr1
+      have s1 := step_prim c (.encode (v / 2 ^ ftb) (v / 2 ^ ftb + 1) ((ft - 1) / 2 ^ ftb + 1)) ri hleg rfl
+        (by simp only [encOp]; omega) herr1
+      simp only [encOp] at a1 s1
+      obtain ⟨g1, _, _, g4, _, g6⟩ := encBits_range _ (v % 2 ^ ftb) ftb s1.run (by omega) hlo herr
+      unfold Acct at a1 ⊢
+      rw [g1, g4, g6]; omega
+    · rw [if_neg hb] at hn herr ⊢
+      exact prim (.encode v (v + 1) (ft - 1 + 1)) (uint_lo_legal l1 l3 hb) rfl hn herr
+
+theorem acct_run (ops : List Op) : ∀ (c : Enc), RunInv c → Acct c → LegalRun c ops →
+    (encRun c ops).nbitsTotal < 4294967296 → (encRun c ops).error = 0 →
+    Acct (encRun c ops) ∧ RunInv (encRun c ops) := by
+  induction ops with
+  | nil => intro c ri ac _ _ _; exact ⟨ac, ri⟩
+  | cons op ops ih =>
+    intro c ri ac hl hn herr
+    have herr1 : (encOp c op).error = 0 := by
+      apply Classical.byContradiction; intro hne
+      exact encRun_error_mono ops _ hne herr
+    have hn1 : (encOp c op).nbitsTotal < 4294967296 := Nat.lt_of_le_of_lt (encRun_nbits_mono ops _) hn
+    exact ih _ (step_op c op ri hl.1 hn1 herr1).run (acct_op c op ri ac hl.1 hn1 herr1) hl.2 hn herr
+
+/-- The bytes an error-free encoder has written so far are strictly below its bit count:
+    `8·(offs + end_offs) + 1 ≤ ec_tell` (in fact for all digits, committed or pending). -/
+theorem bytes_lt_tell (c : Enc) (ri : RunInv c) (ac : Acct c) :
+    8 * ((encM c : Int) + c.endOffs) + 1 ≤ tell c ∧ 8 * ((c.offs : Int) + c.endOffs) + 1 ≤ tell c := by
+  have hil := ilog_le_32 (c := c) ⟨ri.inv.rng_lo, ri.inv.rng_hi⟩
+  have h1 := encM_ge_offs c
+  unfold Acct rawN at ac
+  unfold tell
+  omega
+
+theorem encDone_rng (c : Enc) : (encDone c).rng = c.rng := by
+  rw [encDone_eq']
+  unfold doneRaw
+  have ht : ∀ (x : Enc) (l : Int) (w u : Nat), (encDoneTail x l w u).rng = x.rng := by
+    intro x l w u
+    unfold encDoneTail
+    split
+    · simp only
+      split
+      · split
+        · rfl
+        · split <;> rfl
+      · rfl
+    · rfl
+  rw [ht]
+  have h2 : (doneRange c).1.rng = c.rng := by
+    have h1 := encDoneOut_pres (fun x => x.rng = c.rng) (fun _ _ h => by simpa using h)
+      (fun _ _ h => h) (fun _ _ h => h) c (encDoneEnd c).2 (encDoneEnd c).1 rfl
+    unfold doneRange
+    simp only
+    split
+    · rw [carryOut_rng']; exact h1
+    · exact h1
+  exact (encDoneFlush_pres (fun x => x.rng = c.rng) (fun _ _ h => by simpa using h) _ _ _ h2)
+
+/-! ### How much one call can raise `ec_tell` -/
+
+theorem normRN_tell (rng nbits : Nat) (h0 : 0 < rng) (h1 : rng ≤ 2147483648) :
+    ((normRN rng nbits).2 : Int) - ilog (normRN rng nbits).1 = (nbits : Int) - ilog rng := by
+  fun_induction normRN rng nbits with
+  | case1 rng nbits h ih =>
+    have e : u32 (rng * 256) = rng * 256 := by unfold u32; omega
+    rw [e] at ih ⊢
+    have := ih (by omega) (by omega)
+    rw [this, ilog_mul_256 (by omega)]
+    omega
+  | case2 rng nbits h => rfl
+
+theorem ilog_div_pow (x k : Nat) : ilog x ≤ ilog (x / 2 ^ k) + k := by
+  rw [ilog_lt_iff, Nat.pow_add]
+  have h := (ilog_lt_iff (v := x / 2 ^ k) (k := ilog (x / 2 ^ k))).1 (Nat.le_refl _)
+  exact (Nat.div_lt_iff_lt_mul (Nat.pow_pos (by decide))).1 h
+
+/-- `ec_tell` after a primitive call, from the sub-range it selects (normalisation does not change it). -/
+theorem tell_prim (c : Enc) (op : Op) (hr : RngOk c) (hl : op.Legal) {r a b : Nat} {first : Bool}
+    (hsub : op.sub c.rng = some (r, a, b, first)) :
+    tell (encOp c op) = (c.nbitsTotal : Int) - ilog (subRho c.rng r a b first) := by
+  have h := encOp_rn_sym c op hr hl hsub
+  have ok := Op.sub_ok hl hr.1 hsub
+  obtain ⟨p1, p2⟩ := subRho_bounds first ok
+  have ht := normRN_tell (subRho c.rng r a b first) c.nbitsTotal p1 (by have := hr.2; omega)
+  unfold symRN at h
+  unfold tell
+  rw [← h] at ht
+  exact ht
+
+/-- `ec_enc_bit_logp(·, logp)` raises `ec_tell` by at most `logp`, `ec_enc_uint(·, 256)` by at most 8. -/
+theorem tell_step_bounds (c : Enc) (hr : RngOk c) (v logp : Nat) (h1 : 1 ≤ logp) (h2 : logp ≤ 15) (u : Nat)
+    (hu : u < 256) :
+    tell (encOp c (.bitLogp v logp)) ≤ tell c + logp ∧ tell (encOp c (.uint u 256)) ≤ tell c + 8 := by
+  have hrl := hr.1
+  have hrh := hr.2
+  constructor
+  · have hl : (Op.bitLogp v logp).Legal := ⟨h1, h2⟩
+    have hd := ilog_div_pow c.rng logp
+    by_cases hv : v ≠ 0
+    · rw [tell_prim c _ hr hl (r := c.rng / 2 ^ logp) (a := 1) (b := 0) (first := false)
+        (by simp only [Op.sub]; rw [if_pos hv])]
+      unfold tell subRho
+      simp only [Bool.false_eq_true, if_false, Nat.sub_zero, Nat.mul_one]
+      omega
+    · rw [tell_prim c _ hr hl (r := c.rng / 2 ^ logp) (a := 2 ^ logp) (b := 1) (first := true)
+        (by simp only [Op.sub]; rw [if_neg hv])]
+      unfold tell subRho
+      simp only [if_true, Nat.mul_one]
+      have hhalf : c.rng / 2 ^ logp ≤ c.rng / 2 ^ 1 :=
+        Nat.div_le_div_left (Nat.pow_le_pow_right (by decide) h1) (by decide)
+      have hm : ilog (c.rng / 2 ^ 1) ≤ ilog (c.rng - c.rng / 2 ^ logp) := ilog_mono (by omega)
+      have := ilog_div_pow c.rng 1
+      omega
+  · have e : encOp c (.uint u 256) = encOp c (.encode u (u + 1) 256) := by
+      simp only [encOp, encUint]
+      have : ilog (256 - 1) = 8 := by decide
+      rw [this, if_neg (by omega)]
+    have hl : (Op.encode u (u + 1) 256).Legal := ⟨by omega, by omega, by omega, by omega⟩
+    rw [e, tell_prim c _ hr hl rfl]
+    unfold tell subRho
+    have hd := ilog_div_pow c.rng 8
+    have h256 : (2 : Nat) ^ 8 = 256 := by decide
+    rw [h256] at hd
+    by_cases h0 : u = 0
+    · subst h0
+      simp only [decide_true, if_true]
+      have hm : ilog (c.rng / 256) ≤ ilog (c.rng - c.rng / 256 * (256 - (0 + 1))) := by
+        apply ilog_mono
+        have := Nat.div_mul_le_self c.rng 256
+        omega
+      omega
+    · have hdec : decide (u = 0) = false := by simp [h0]
+      rw [hdec]
+      simp only [Bool.false_eq_true, if_false]
+      have : 256 - u - (256 - (u + 1)) = 1 := by omega
+      rw [this, Nat.mul_one]
+      omega
+
 end Opus.RangeCoder
